@@ -509,7 +509,8 @@ _ADDED12 = {
 }
 # Registrations and repairs after the thirteenth (short) round.
 _ADDED13 = {
-    "C09": " (SC1) registered here too.",
+    "C09": " (SC1) registered here too; (CX1) no function assigns a field through a pointer to a traversal context it received (or a local aliasing it): a callee that needs another context for its children builds a new one.",
+    "C19": " (CX1) see C09.",
     "C11": " (V5) registered here too for the topological sort: the reference-cycle check descends into the type arguments of references into other namespaces.",
     "C04": " (VS1) also reads a key built from TypeToShortSyntax(t, false) or concatenated from such parts as unqualified.",
     "C20": " (T12) is decided by types: a return in front of the generators stands under a test of an error-typed value or returns one.",
